@@ -552,7 +552,7 @@ def gen_c16(tier):
     out = prelude("c16_op.rs")
     for n in range(0, 5):
         for with_len in (False, True):
-            if n > 3:
+            if n > 2:
                 continue
             q = n <= 1
             out += '''
@@ -586,7 +586,7 @@ pub fn c16_cat1_%(sa)s() {
            to=600 if a in (0, 1, 2, 6) else 1800, mem=8 if a in (0, 1, 2, 6) else 20, opt="" if a in (0, 1, 2, 6) else " optional=1")
         for b in range(9):
             cheap = a in (0, 1, 2, 6) and b in (0, 1, 2, 6)
-            if not cheap and (a, b) not in ((3, 0), (0, 3), (5, 6), (7, 0), (4, 8), (8, 1)):
+            if not cheap and (a, b) not in ((3, 0), (5, 6), (7, 0), (4, 1)):
                 continue
             out += '''
 //@ harness: c16_cat2_%(sa)s_%(sb)s tier=%(tier)s timeout=%(to)d kind=main mem=%(mem)d%(opt)s
